@@ -13,11 +13,15 @@ def make_matrix(rng, n, thorough):
     """upper-triangular matrix with small integer entries (many ties), optionally with infinite entries"""
     hi = rng.choice([1, 2, 3, 6, 12])
     inf_rate = rng.choice([0, 0, 0, 0.15, 0.5])
+    # near-ties: large values that differ by a few units (relative difference ~1e-6) are different distances
+    near = rng.random() < 0.2
     m = np.full((n, n), np.inf)
     for r in range(n):
         for c in range(r + 1, n):
             if rng.random() >= inf_rate:
                 m[r, c] = float(rng.randint(0, hi))
+                if near:
+                    m[r, c] = float(rng.randint(1, max(1, min(hi, 3))) * 1000000 + rng.randint(0, 6))
     return m
 
 
@@ -126,6 +130,12 @@ def run(ctx):
             max_dist = float(rng.randint(0, 8))
         else:
             max_dist = rng.randint(0, 8) + 0.5
+        fin_ = [x for x in m0.flatten().tolist() if not math.isinf(x)]
+        if fin_ and max(fin_) > 1000 and not math.isinf(max_dist):
+            max_dist = rng.choice(fin_) + rng.choice([0.0, 0.5, 2.5, -1.5])       # between two near-ties
+            res.hit("near_ties_with_max_dist")
+        if fin_ and max(fin_) > 1000:
+            res.hit("near_ties")
         calls = []
 
         def dists_fun(s, **opts):
